@@ -207,3 +207,75 @@ pub fn main(variant: u8, pattern: &[u8], seed: u64, single: Option<u64>) -> (i32
         }
     }
 }
+
+/// C12 thorough: hash_stream_for::<K> on a generated periodic stream of `total` bytes (no memory), delivered in
+/// seeded read sizes with occasional EINTR; the result must equal the reference model at that offset
+/// (a hash for total <= 4,224,281,216, TooLargeInput above).
+pub fn big_reader(variant: u8, pattern: &[u8], seed: u64, total: u64) -> (i32, Value) {
+    struct Gen<'a> {
+        pat: &'a [u8],
+        pos: u64,
+        total: u64,
+        r: Rng,
+        eintr: u64,
+        calls: u64,
+    }
+    impl std::io::Read for Gen<'_> {
+        fn read(&mut self, buf: &mut [u8]) -> std::io::Result<usize> {
+            self.calls += 1;
+            if self.r.chance(1, 50) {
+                self.eintr += 1;
+                return Err(std::io::Error::from(std::io::ErrorKind::Interrupted));
+            }
+            let left = self.total - self.pos;
+            let lim = match self.r.below(8) {
+                0 => self.r.range(1, 4096),
+                1 => self.r.range(1, buf.len().max(1) as u64),
+                _ => buf.len() as u64,
+            };
+            let n = (buf.len() as u64).min(left).min(lim) as usize;
+            let pl = self.pat.len() as u64;
+            for (i, b) in buf[..n].iter_mut().enumerate() {
+                *b = self.pat[((self.pos + i as u64) % pl) as usize];
+            }
+            self.pos += n as u64;
+            Ok(n)
+        }
+    }
+    let t0 = std::time::Instant::now();
+    let v = VARIANTS[variant as usize % 5];
+    let mut g = Gen { pat: pattern, pos: 0, total, r: Rng::new(seed), eintr: 0, calls: 0 };
+    let got = crate::framework::guarded(|| {
+        with_kind!(variant, K => match <K as Kind>::hash_stream(&mut g) {
+            Ok(h) => h.to_string(),
+            Err(tlsh::GeneratorOrIOError::GeneratorError(e)) => format!("Err({e:?})"),
+            Err(tlsh::GeneratorOrIOError::IOError(e)) => format!("IOError({:?})", e.kind()),
+        })
+    });
+    let hist = json!({"variant_id": variant, "pattern": crate::data::hex(pattern), "seed": seed.to_string(), "total": total.to_string(), "via": "hash_stream_for"});
+    let want = match Model::at_offset(v, pattern, total.min(crate::model::CUTOFF), JUMP_CAP) {
+        Some(mut m) => {
+            if total > m.n {
+                m.skip(total - m.n);
+            }
+            // hash_stream finalizes with the default options (optimistic length mode, legacy f32 ratios, no waivers)
+            Some(render_model(&m.finalize(MOpts::from_bits(0))))
+        }
+        None => None,
+    };
+    let mut viol = Vec::new();
+    match (&got, &want) {
+        (Err(p), _) => viol.push(json!({"index": seed, "class": format!("panic:{}", crate::framework::panic_class(p)), "detail": format!("panic: {p}"), "history": hist, "engine": "bigstream"})),
+        (Ok(g), Some(w)) if g != w => viol.push(json!({"index": seed, "class": "stream-differs-from-reference", "detail": format!("{total} bytes through hash_stream_for: got {g}, reference model {w}"), "history": hist, "engine": "bigstream"})),
+        _ => {}
+    }
+    for x in viol.iter_mut() {
+        x["argv"] = json!(["bigreader", "--variant", variant.to_string(), "--pattern", crate::data::hex(pattern), "--seed", seed.to_string(), "--total", total.to_string()]);
+    }
+    let n = viol.len();
+    let rep = json!({"scenario": "c12big", "property": "C12", "seed": seed.to_string(), "evaluations": 1, "distinct": 1, "distinct_nontrivial": 1,
+        "rule": "one real stream of > 4 GB through hash_stream_for with seeded read sizes and EINTR; compared with the reference model at that offset",
+        "counters": {"sim_bytes_fed": g.pos, "fault.eintr": g.eintr, "read_calls": g.calls, "probe.stream_gt_4GiB": (total > (1u64 << 32)) as u64},
+        "samples": [hist], "violation_count": n, "violations": viol, "wall_s": t0.elapsed().as_secs_f64()});
+    (if n > 0 { 1 } else { 0 }, rep)
+}
